@@ -258,7 +258,10 @@ class Parser:
         if self.accept("&"):
             mut = self.accept("mut")
             return N("ref", mut=mut, e=self.unary(False, nostruct))
-        return self.postfix(self.primary(nostruct), nostruct)
+        prim = self.primary(nostruct)
+        if stmt and prim.kind in ("if", "iflet", "match", "while", "loop", "for", "block", "unsafe") and not self.at("."):
+            return prim
+        return self.postfix(prim, nostruct)
 
     def args(self, close=")"):
         out = []
